@@ -10,8 +10,9 @@ EXPLANATION = (
     "DBFSStore.__init__ binds each legacy reference dbfs.<kind> to the codec of the same kind (ALIAS). "
     "DBFSStore.sync_paths over a map model of dbutils.fs (loop invariant, all path sets): 'none' writes nothing; otherwise every committed path has a record naming its key, 'full' also a byte-identical copy of the blob, 'links only' no object; "
     "other paths, the blob area and everything else are untouched; records stay well-formed. fetch_paths resolves each path to the key of its record and has no effect; has_blob is presence of the metadata object; "
-    "_head/_put/_fetch_meta are verified against the contracts their callers use. "
-    "Blob round trips, pyspark blobs and keep/load end to end under the three types (and all 81 histories of commit types over the same directories) are checked natively against an in-process fake of dbutils.fs (bounded part)."
+    "_head/_put/_fetch_meta are verified against the contracts their callers use. store_blob writes the selected codec's encoding, then the metadata naming that codec's reference (metadata last), nothing else; "
+    "fetch_blob decodes the blob object with the codec the metadata's reference denotes (legacy references through the alias table) and has no effect; a later fetch of a stored value returns it (codec round trip assumed, A-LIB). "
+    "Concrete codecs, pyspark blobs and keep/load end to end under the three types (and all 81 histories of commit types over the same directories) are checked natively against an in-process fake of dbutils.fs (bounded part)."
 )
 TRUSTED = ["A-ENGINE", "str.upper abstracted (idempotent, literal table)", "A-DBU: dbutils.fs as a map URI -> content with head/put/cp/rm (contracts/dbfs_store.py) in the proofs, an in-process fake with the same behaviour in the bounded part; pyspark blobs assumed away",
            "LAYOUT-INJ (hypothesis): record / object / blob / metadata locations are injective in path resp. key and pairwise disjoint; _physical_path, _blob_path, _blob_meta_path are layout definitions", "A-LIB: json.loads(json.dumps(x)) == x"]
@@ -22,7 +23,9 @@ class _Replay(dict):
     def get(self, key, default=None):
         if key in self:
             return self[key]
-        if key.startswith(("DBFSStore.sync_paths#", "DBFSStore.fetch_paths#", "DBFSStore._put#", "DBFSStore._head#", "DBFSStore.has_blob#", "DBFSStore._fetch_meta#")):
+        if key.startswith(("DBFSStore.store_blob#", "DBFSStore.fetch_blob#", "DBFSStore.has_blob#", "DBFSStore._fetch_meta#")):
+            return "h_dbfs.blob_ops"
+        if key.startswith(("DBFSStore.sync_paths#", "DBFSStore.fetch_paths#", "DBFSStore.store_blob#", "DBFSStore.fetch_blob#", "DBFSStore._put#", "DBFSStore._head#", "DBFSStore.has_blob#", "DBFSStore._fetch_meta#")):
             return "h_dbfs.commit_type_history"
         return default
 
